@@ -111,7 +111,7 @@ theorem closed_IdInv : Closed (fun s => s.data.IdInv) where
     exact ⟨IdInv_encodeAt _ (h7 ▸ h.out), ⟨h5, h6⟩⟩
   encodeScratch := by intro ε s enc _ h; show ((s.encode enc).1.data).IdInv; rw [Session.encode_fst]; exact ⟨IdInv_encodeAt _ h.out, h.pid⟩
   enqueue := by
-    intro ε s enc off len isPub s3 _ h _ _ hr
+    intro ε s enc off len isPub s3 _ _ _ _ h _ _ hr
     rw [Session.encode_fst, Session.alloc_fst, Session.alloc_snd] at hr
     unfold Session.retain at hr
     split at hr
